@@ -12,6 +12,7 @@ from __future__ import annotations
 import ctypes as ct
 import itertools
 import math
+import os
 
 import numpy as np
 
@@ -35,7 +36,7 @@ REQUIRED_MONITORS = ["I_equals_weighted_mean", "Fq_outputs_equal_weighted_means"
                      "refuses_too_many_dispersed", "trace_covers_mesh_once", "no_stale_result"]
 REQUIRED_BUCKETS = {
     "quick": ["dims:1", "dims:2", "dims:3", "dims:4", "dims:5", "mesh:2..99", "mesh:100", "mesh:101..199",
-              "mesh:200..400", "reparameterised-model", "trunc:2", "trunc:1", "trunc:0", "trunc:1:parameter-without-loop-slot", "cutoff:0", "cutoff:1e-5", "cutoff:placed", "cutoff:tie",
+              "mesh:200..400", "reparameterised-model", "hollow-plugin:c-string", "hollow-plugin:c-code", "trunc:2", "trunc:1", "trunc:0", "trunc:1:parameter-without-loop-slot", "cutoff:0", "cutoff:1e-5", "cutoff:placed", "cutoff:tie",
               "dim:1d", "dim:2d", "have_Fq", "no_Fq", "Fq_in_2d", "hollow", "invalid_points>0", "loops>=3_cross_chunk",
               "lane:asan", "refusal"] + ["dist:" + d for d in sas.DIST],
 }
@@ -76,6 +77,10 @@ def gen_cases(tier, seed):
         for kk in range(3 if tier == "quick" else 24):
             cases.append({"id": "reparam/%d-%02d" % (j, kk), "kind": "reparam", "j": j, "k": kk, "seed": seed, "model": "reparam",
                           "group": "rp%d" % j, "lane": "plain", "cost": 2.0})
+    for var in ("c-string", "c-code"):
+        for kk in range(3 if tier == "quick" else 18):
+            cases.append({"id": "hollowplugin/%s-%02d" % (var, kk), "kind": "hollowplugin", "variant": var, "k": kk, "seed": seed,
+                          "model": "hollowplugin", "group": "hp-" + var, "lane": "plain", "cost": 1.0})
     san = SAN_MODELS if tier == "quick" else models
     for m in san:
         for s in range(3 if tier == "quick" else 6):
@@ -614,8 +619,70 @@ def run_reparam(case, rec):
     kern.release()
 
 
+def run_hollow_plugin(case, rec):
+    """A hollow shape supplied as a C plugin whose shell volume is written in the model file (string body / inline code
+    block): the mean is normalised by the mean shell volume.  Closed forms."""
+    from sasmodels import core as sascore, direct_model
+    from rtm.props.c07 import HOLLOW_C, SHELL_STRING, SHELL_CCODE
+    kind, k = case["variant"], case["k"]
+    rng = core.rng_for(case["seed"], PROP, "hollow", kind, k)
+    d = os.path.join(os.environ.get("RTM_SCRATCH", "/tmp"), "c01plugins")
+    os.makedirs(d, exist_ok=True)
+    name = "rtm01_hollow_%s" % kind.replace("-", "_")
+    path = os.path.join(d, name + ".py")
+    with open(path, "w") as f:
+        f.write(HOLLOW_C % dict(name=name, shell=SHELL_STRING if kind == "c-string" else SHELL_CCODE))
+    model = sascore.load_model(path, dtype="double", platform="dll")
+    info = model.info
+    R, t = float(rng.uniform(15, 60)), float(rng.uniform(4, 25))
+    sld, solv = float(rng.uniform(0.5, 4)), float(rng.uniform(5, 7))
+    scale, bg = float(rng.uniform(0.5, 2)), float(rng.uniform(0, 0.05))
+    nR, nt = [(1, 1), (5, 4), (13, 11)][k % 3]
+    pars = dict(sld=sld, sld_solvent=solv, radius=R, thickness=t, scale=scale, background=bg)
+    if nR > 1:
+        pars.update(radius_pd=0.12, radius_pd_n=nR, radius_pd_nsigma=2.0, thickness_pd=0.2, thickness_pd_n=nt, thickness_pd_nsigma=2.0,
+                    thickness_pd_type="schulz")
+    q = [np.exp(rng.uniform(math.log(0.004), math.log(0.25), 5))]
+    cutoff = [0.0, 1e-4][k % 2]
+    kern = model.make_kernel(q)
+    I = np.asarray(direct_model.call_kernel(kern, dict(pars), cutoff=cutoff), float)
+    F = direct_model.call_Fq(kern, dict(pars), cutoff=cutoff)
+    mesh = direct_model.get_mesh(info, pars, dim="1d")
+    names = [p_.name for p_ in info.parameters.call_parameters]
+    cR, ct = mesh[names.index("radius")], mesh[names.index("thickness")]
+    j3 = lambda x: 3.0*(np.sin(x) - x*np.cos(x))/x**3
+    c43 = 4.0*math.pi/3.0
+    sw, sf2, svs, svf = [], [[] for _ in q[0]], [], []
+    for r_, wr in zip(np.ravel(cR[1]), np.ravel(cR[2])):
+        for t_, wt in zip(np.ravel(ct[1]), np.ravel(ct[2])):
+            w = float(wr)*float(wt)
+            if not (w > cutoff):
+                continue
+            f2 = 1e-4*((sld - solv)*(c43*(r_ + t_)**3*j3(q[0]*(r_ + t_)) - c43*r_**3*j3(q[0]*r_)))**2
+            sw.append(w)
+            svf.append(w*c43*(r_ + t_)**3)
+            svs.append(w*c43*((r_ + t_)**3 - r_**3))
+            for j_ in range(len(q[0])):
+                sf2[j_].append(w*float(f2[j_]))
+    W = math.fsum(sw)
+    Vs, Vf = math.fsum(svs)/W, math.fsum(svf)/W
+    F2 = np.array([math.fsum(x_) for x_ in sf2])/W
+    exp = scale*F2/Vs + bg
+    ctx = {"model": "hollow sphere plugin (%s)" % kind, "pars": pars, "cutoff": cutoff, "mesh_points": len(sw)}
+    ok = core.close(I, exp, 1e-9, 1e-12*float(np.max(np.abs(exp))))
+    rec.check("I_equals_weighted_mean", ok, None if ok else dict(ctx, observed=I, expected=exp, V_shell=Vs, V_form=Vf))
+    okF = core.close(np.asarray(F[1], float), F2, 1e-9, 1e-12*float(np.max(F2))) and core.close(float(F[3]), Vs, 1e-10) \
+        and core.close(float(F[4]), Vf/Vs, 1e-10)
+    rec.check("Fq_outputs_equal_weighted_means", okF, None if okF else dict(ctx, observed=[F[1], F[3], F[4]], expected=[F2, Vs, Vf/Vs]))
+    rec.bucket("hollow-plugin:" + kind, "mesh:" + mesh_class(len(sw)))
+    rec.set_shape(("hollow-plugin", kind, k), nontrivial=True)
+    kern.release()
+
+
 def run_case(case, rec):
     sas.install_poison()
+    if case["kind"] == "hollowplugin":
+        return run_hollow_plugin(case, rec)
     if case["kind"] == "reparam":
         return run_reparam(case, rec)
     if case["kind"] == "value":
